@@ -412,6 +412,7 @@ fn main() {
                 // renouncing the admin early makes the rest of a run dull: at most once, late, in some runs
                 let renounce_from = if r.gen_bool(0.4) { r.gen_range(len / 3..len.max(1)) } else { len };
                 for i in 0..len {
+                    time_passes(&sys.e, &mut r, 3000);
                     let kind = *pick(
                         &mut r,
                         &[
